@@ -10,6 +10,8 @@ import (
 	"strings"
 	"testing"
 	"testing/synctest"
+
+	"github.com/wi1dcard/fingerproxy/pkg/http2"
 )
 
 // Result of one bubble.
@@ -34,6 +36,7 @@ func Run(t *testing.T, body func()) (res RunResult) {
 		}
 	}()
 	var leftover string
+	defer http2.VerifResetPools() // channels pooled by pkg/http2 must not survive into the next bubble
 	synctest.Test(t, func(t *testing.T) {
 		defer func() {
 			if r := recover(); r != nil {
